@@ -101,7 +101,7 @@ def main():
                      "non-trivial = distinct scenario text (incl. the schedule)" % (150 if c.tier == "quick" else 6000))
     c.cov["exhaustive"] = False
     c.cov["samples"] = samples[:6] or ["(none)"]
-    c.cov["input_distribution"] = {k: v for k, v in stats.items() if k.startswith("ev_") or k.startswith("dfs_") or k.startswith("skipped") or k in ("horizon_abort", "budget_abort", "second_instance_abort")}
+    c.cov["input_distribution"] = {k: v for k, v in stats.items() if k.startswith("ev_") or k.startswith("dfs_") or k.startswith("skipped") or k in ("horizon_abort", "budget_abort", "second_instance_abort", "stall_fired", "kill_fired")}
     c.assumptions += ["OS semantics of DESIGN.md 1.4 as implemented by harness/sim.c: atomic synchronous directory operations, a fresh inode number is not in use, "
                       "alarm(n) lets no call happen n seconds later, flock is a mutex, atime of a new file = creation time",
                       "qmail-clean dies with its qmail-send (a new qmail-send is started only after the previous instance's qmail-clean is gone)",
